@@ -345,7 +345,7 @@ def r5(ctx: Ctx) -> None:
             txt = " ".join(key(strip_ver(c)) for c, _, _ in p.conds) + " " + " ".join(key(strip_ver(e.term)) for e in p.walk_events() if e.kind == "call") + " " + (key(strip_ver(p.exit[1])) if p.exit[0] == "return" else "")
             if "self.priority_queue" in txt:
                 reads_q = True
-        ctx.check(not eff and reads_q, f, f.node, f"{q} is a pure function of the priority queue", "no stores to the book, reads self.priority_queue", ("effects: " + ", ".join(eff)) if eff else ("reads queue" if reads_q else "does not read the queue"))
+        ctx.check(not eff and reads_q, f, f.node, f"{q} is a pure function of the priority queue", "no stores to the book, reads self.priority_queue", ("effects: " + ", ".join(eff)) if eff else ("reads queue" if reads_q else "does not read the queue"), guard="text")  # stores to an attribute the reference tree does not have (a memo of the view): refused, not reported
     table = {
         "get_best_buy_price": ("buy_order_book", "get_best_price"), "get_best_sell_price": ("sell_order_book", "get_best_price"),
         "get_buy_order_book": ("buy_order_book", "get_price_volume"), "get_sell_order_book": ("sell_order_book", "get_price_volume"),
